@@ -71,7 +71,7 @@ def prepare(traces):
     for tr in traces:
         steps = []
         for s in tr["steps"]:
-            a = {"op": s["a"]["op"], "k": s["a"].get("k", 0), "j": s["a"].get("j", 0), "kind": s["a"].get("kind", ""), "l": s["a"].get("l", 0)}
+            a = {"op": s["a"]["op"], "k": s["a"].get("k", 0), "j": s["a"].get("j", 0), "kind": s["a"].get("kind", ""), "l": s["a"].get("l", 0), "tid": s["a"].get("tid", "")}
             steps.append({"a": a, "out": s["out"], "t": s["t"], "savedSame": s.get("savedSame", True)})
         saves = []
         for sv in tr["saves"]:
